@@ -264,7 +264,7 @@ def f_or(a, b):
 # State
 
 class State:
-    __slots__ = ("env", "lin", "bnd", "props", "teq", "tne", "path", "unk", "assumed")
+    __slots__ = ("env", "lin", "bnd", "props", "teq", "tne", "path", "unk", "assumed", "pos", "neg")
 
     def __init__(self):
         self.env = {}
@@ -276,6 +276,8 @@ class State:
         self.path = ()     # human readable branch decisions
         self.unk = ()      # unknown boolean decisions (key, polarity)
         self.assumed = ()  # names of contract assumptions used on this path
+        self.pos = set()   # entailed queries (monotone: stay valid when facts are added)
+        self.neg = {}      # non-entailed queries -> number of facts at the time
 
     def copy(self):
         s = State.__new__(State)
@@ -288,6 +290,8 @@ class State:
         s.path = self.path
         s.unk = self.unk
         s.assumed = self.assumed
+        s.pos = set(self.pos)
+        s.neg = dict(self.neg)
         return s
 
     # -- facts
@@ -316,18 +320,35 @@ class State:
         self.path = self.path + (msg,)
 
     # -- queries
+    def _q(self, kind, p):
+        if kind != "ne" and p.is_const():
+            c = p.const_value()
+            return (c >= 0) if kind == "ge" else (c == 0)
+        key = (kind, p)
+        if key in self.pos:
+            return True
+        n = len(self.lin.facts)
+        if self.neg.get(key) == n:
+            return False
+        r = entails(self.lin, kind, p)
+        if r:
+            self.pos.add(key)
+        else:
+            self.neg[key] = n
+        return r
+
     def ge(self, a, b=0):
         """a >= b entailed?"""
-        return entails(self.lin, "ge", as_poly(a) - as_poly(b))
+        return self._q("ge", as_poly(a) - as_poly(b))
 
     def eq(self, a, b=0):
         p = as_poly(a) - as_poly(b)
         if not p.t:
             return True
-        return entails(self.lin, "eq", p)
+        return self._q("eq", p)
 
     def ne(self, a, b=0):
-        return entails(self.lin, "ne", as_poly(a) - as_poly(b))
+        return self._q("ne", as_poly(a) - as_poly(b))
 
     def infeasible(self):
         return infeasible(self.lin)
